@@ -52,7 +52,7 @@ def gen_cases(rng, tier):
         if not any(len(set(zip(o, i))) > 1 for o, i in zip(outer, inner)):
             continue
         cases.append({'m': m, 'sites8': [list(p) for p in pts], 'labels': labels, 'outer': outer, 'inner': inner,
-                      'mr': rng.choice([0, 0, 1, 2]), 'dim': rng.randint(1, 3), 'tseed': rng.randrange(10**6),
+                      'mr': rng.choice([0, 0, 1, 2, 3, 5]), 'dim': rng.randint(1, 3), 'tseed': rng.randrange(10**6),
                       'dt': rng.choice([1e-15, 2e-15, 2.5e-15])})
     return cases
 
